@@ -180,3 +180,91 @@ def inline(fn_node, expr, depth=4):
                 return R(self.d - 1).visit(v)
             return n
     return R(depth).visit(copy.deepcopy(expr))
+
+
+def matvec(prog, node):
+    """(M, v) when ``node`` is a matrix-vector / matrix-matrix product in any
+    spelling: ``M.dot(v)``, ``M @ v``, ``np.dot(M, v)``, ``np.matmul(M, v)``."""
+    if isinstance(node, ast.BinOp) and isinstance(node.op, ast.MatMult):
+        return node.left, node.right
+    if isinstance(node, ast.Call):
+        f = prog.dotted(node.func) or ''
+        if f in ('numpy.dot', 'numpy.matmul') and len(node.args) == 2:
+            return node.args[0], node.args[1]
+        if isinstance(node.func, ast.Attribute) and \
+                node.func.attr == 'dot' and len(node.args) == 1 and \
+                not f.startswith('numpy.'):
+            return node.func.value, node.args[0]
+    return None
+
+
+def origins(fn_node, params):
+    """{local name: set of parameter names it may be derived from}: a flow
+    insensitive def-use closure over assignments, loop targets, enumerate /
+    zip and comprehensions.  A name re-bound from a call that takes the name
+    itself among its arguments (``a, b, n = prep(a, b, n, d)``) keeps its own
+    identity (the normalising-helper idiom)."""
+    org = {p: {p} for p in params}
+    edges = []          # (target name, [source names], keeps_identity)
+
+    def names(e):
+        return [n.id for n in ast.walk(e) if isinstance(n, ast.Name)]
+
+    def bind(t, v):
+        if isinstance(t, ast.Name):
+            edges.append((t.id, names(v)))
+        elif isinstance(t, (ast.Tuple, ast.List)):
+            if isinstance(v, (ast.Tuple, ast.List)) and \
+                    len(v.elts) == len(t.elts):
+                for a, b in zip(t.elts, v.elts):
+                    bind(a, b)
+            elif isinstance(v, ast.Call) and \
+                    isinstance(v.func, ast.Name) and \
+                    v.func.id in ('zip', 'enumerate'):
+                args = list(v.args)
+                if v.func.id == 'enumerate':
+                    if len(t.elts) == 2 and args:
+                        bind(t.elts[1], args[0])
+                    return
+                if len(args) == len(t.elts):
+                    for a, b in zip(t.elts, args):
+                        bind(a, b)
+                    return
+                for a in t.elts:
+                    bind(a, v)
+            elif isinstance(v, ast.Call):
+                argn = names(v)
+                for a in t.elts:
+                    if isinstance(a, ast.Name) and a.id in argn:
+                        edges.append((a.id, [a.id]))
+                    else:
+                        bind(a, v)
+            else:
+                for a in t.elts:
+                    bind(a, v)
+        elif isinstance(t, ast.Starred):
+            bind(t.value, v)
+    for node in ast.walk(fn_node):
+        if isinstance(node, ast.Assign):
+            for t in node.targets:
+                bind(t, node.value)
+        elif isinstance(node, ast.AugAssign):
+            bind(node.target, node.value)
+        elif isinstance(node, ast.AnnAssign) and node.value is not None:
+            bind(node.target, node.value)
+        elif isinstance(node, (ast.For, ast.comprehension)):
+            bind(node.target, node.iter)
+        elif isinstance(node, ast.NamedExpr):
+            bind(node.target, node.value)
+    changed = True
+    while changed:
+        changed = False
+        for t, srcs in edges:
+            cur = org.setdefault(t, set())
+            add = set()
+            for s in srcs:
+                add |= org.get(s, set())
+            if not add <= cur:
+                cur |= add
+                changed = True
+    return org
